@@ -203,6 +203,11 @@ func parseDirective(vars []RvInstruction, device bool) *RvDirective { //nolint:g
 			}
 
 		case RVExtRV:
+			// The value is optional on the wire and ArrayShift panics on
+			// empty input
+			if len(v.Value) == 0 {
+				break
+			}
 			mech, args := cbor.ArrayShift(v.Value)
 			if len(mech) > 0 {
 				if err := cbor.Unmarshal(mech, &dir.ExtMechanism); err == nil {
